@@ -4,11 +4,14 @@
 //!   op = 1 a b l   a.connect(b, channel) ; l = 0 no channel, else latency l-1 ns (bitrate 0, jitter 0)
 //!      | 2 g kind | 3 g next_gate | 4 g path_end | 5 g path_iter
 //!      | 6 g t d   at time t the owner of gate g calls send_at(msg, g, t+d)
+//!      | 7 g g' d  forwarding rule: the module that receives a message through gate g (header.last_gate)
+//!                  sends THE RECEIVED Message object on gate g' after d ns (g' = g: echo back)
+//!      | 8 g t d b as 6, the message may be relayed min(b,8) times (budget and leg number travel in the content)
 //! Output per op: connect -> 1 | kind -> 2 k | next_gate -> 3 h+1|0 | path_end -> 4 h+1|0 |
-//!   path_iter -> 5 0 (transit) | 5 1 n (gate chan+1|0){n} | send -> 6 | unknown gate -> 7 | panic -> 9 site
-//! then, after running the simulation, one record per handled message sorted by send number k:
-//!   11 k receiving-module now-ns sender-module receiver-module last_gate+1|0
-//!   12 k 3  (send_at panicked: transit gate)
+//!   path_iter -> 5 0 (transit) | 5 1 n (gate chan+1|0){n} | send -> 6 | rule -> 14 | unknown gate -> 7 | panic -> 9 site
+//! then, after running the simulation, one record per handled message sorted by (send number k, leg):
+//!   11 k leg receiving-module now-ns sender-module receiver-module last_gate+1|0
+//!   12 k leg 3  (send/send_at panicked: transit gate)
 //! or the single number 10 when some gate mutex is poisoned (the simulation is not run),
 //! and a trailing 13 if `run()` returned an error.
 use des::net::gate::GateKind;
@@ -55,8 +58,10 @@ fn run_line(nums: &[u64]) -> Vec<u64> {
 struct Shared {
     gates: Vec<GateRef>,
     mod_ids: Vec<ModuleId>,
-    /// (k, gate index, owner module, t, d)
-    sends: Vec<(u64, usize, u64, u64, u64)>,
+    /// (k, gate index, owner module, t, d, budget)
+    sends: Vec<(u64, usize, u64, u64, u64, u64)>,
+    /// (arrival gate, out gate, delay)
+    rules: Vec<(usize, usize, u64)>,
     log: Vec<Vec<u64>>,
 }
 
@@ -74,12 +79,13 @@ fn at(ns: u64) -> SimTime {
 
 impl Node {
     fn do_send(&self, k: u64) {
-        let (gate, t, d) = {
+        let (gate, t, d, b) = {
             let sh = self.sh.lock().unwrap();
             let s = sh.sends.iter().find(|s| s.0 == k).copied().unwrap();
-            (sh.gates[s.1].clone(), s.3, s.4)
+            (sh.gates[s.1].clone(), s.3, s.4, s.5)
         };
-        let msg = Message::default().kind(PAYLOAD).id(k as u16);
+        // content: relay budget << 8 | leg number
+        let msg = Message::default().kind(PAYLOAD).id(k as u16).with_content(b << 8);
         let r = catch_unwind(AssertUnwindSafe(|| {
             if d == 0 {
                 send(msg, gate)
@@ -88,7 +94,7 @@ impl Node {
             }
         }));
         if r.is_err() {
-            self.sh.lock().unwrap().log.push(vec![k, 12, 3]);
+            self.sh.lock().unwrap().log.push(vec![k, 0, 12, 3]);
         }
     }
 }
@@ -109,7 +115,9 @@ impl Module for Node {
         }
     }
 
-    fn handle_message(&mut self, msg: Message) {
+    fn handle_message(&mut self, mut msg: Message) {
+        let c = msg.try_content::<u64>().copied().unwrap_or(0);
+        let (budget, leg) = (c >> 8, c & 255);
         let h = msg.header();
         let k = h.id as u64;
         if h.kind == TRIGGER {
@@ -123,8 +131,28 @@ impl Module for Node {
             Some(g) => sh.gates.iter().position(|x| Arc::ptr_eq(x, g)).map_or(9999, |p| p as u64 + 1),
             None => 0,
         };
-        let rec = vec![k, 11, self.idx, now, midx(h.sender_module_id), midx(h.receiver_module_id), last];
+        let rec = vec![k, leg, 11, self.idx, now, midx(h.sender_module_id), midx(h.receiver_module_id), last];
         sh.log.push(rec);
+        // RELAY: send the received object on, if a rule names the gate it arrived through
+        if budget == 0 || last == 0 || last == 9999 {
+            return;
+        }
+        let Some(&(_, gout, dl)) = sh.rules.iter().find(|r| r.0 as u64 + 1 == last) else {
+            return;
+        };
+        let gate = sh.gates[gout].clone();
+        drop(sh);
+        *msg.content_mut::<u64>() = ((budget - 1) << 8) | (leg + 1);
+        let r = catch_unwind(AssertUnwindSafe(move || {
+            if dl == 0 {
+                send(msg, gate)
+            } else {
+                send_in(msg, gate, Duration::from_nanos(dl))
+            }
+        }));
+        if r.is_err() {
+            self.sh.lock().unwrap().log.push(vec![k, leg + 1, 12, 3]);
+        }
     }
 }
 
@@ -199,7 +227,8 @@ fn run_script(nums: &[u64]) -> Vec<u64> {
     while !cur.done() {
         let tag = cur.peek().unwrap();
         let need = match tag {
-            1 | 6 => 4,
+            1 | 6 | 7 => 4,
+            8 => 5,
             2..=5 => 2,
             _ => break,
         };
@@ -269,15 +298,27 @@ fn run_script(nums: &[u64]) -> Vec<u64> {
                     Err(e) => out.extend([9, site(&e, 4)]),
                 }
             }
+            7 => {
+                let g = cur.next() as usize;
+                let g2 = cur.next() as usize;
+                let d = cur.next();
+                if g >= gates.len() || g2 >= gates.len() {
+                    out.push(7);
+                    continue;
+                }
+                sh.lock().unwrap().rules.push((g, g2, d));
+                out.push(14);
+            }
             _ => {
                 let g = cur.next() as usize;
                 let t = cur.next();
                 let d = cur.next();
+                let b = if tag == 8 { cur.next().min(8) } else { 0 };
                 if g >= gates.len() {
                     out.push(7);
                     continue;
                 }
-                sh.lock().unwrap().sends.push((nsend, g, owners[g], t, d));
+                sh.lock().unwrap().sends.push((nsend, g, owners[g], t, d, b));
                 nsend += 1;
                 out.push(6);
             }
@@ -296,10 +337,11 @@ fn run_script(nums: &[u64]) -> Vec<u64> {
         let mut log = std::mem::take(&mut sh.lock().unwrap().log);
         log.sort();
         for r in log {
-            // [k, tag, rest..] -> tag k rest..
-            out.push(r[1]);
+            // [k, leg, tag, rest..] -> tag k leg rest..
+            out.push(r[2]);
             out.push(r[0]);
-            out.extend(&r[2..]);
+            out.push(r[1]);
+            out.extend(&r[3..]);
         }
         match res {
             Ok(Ok(_)) => {}
@@ -310,5 +352,6 @@ fn run_script(nums: &[u64]) -> Vec<u64> {
     let mut s = sh.lock().unwrap();
     s.gates.clear();
     s.sends.clear();
+    s.rules.clear();
     out
 }
